@@ -110,6 +110,15 @@ class Handlers(UserDict):
         #   to a cached handler that was removed.
         self._resolve.cache_clear()  # type: ignore[attr-defined]
 
+    def __ior__(self, other: Any) -> Handlers:
+        result = super().__ior__(other)
+
+        # NOTE: UserDict.__ior__() updates self.data directly, bypassing
+        #   __setitem__(), so the resolver cache must be invalidated here too.
+        self._resolve.cache_clear()  # type: ignore[attr-defined]
+
+        return cast(Handlers, result)
+
     def _create_resolver(self) -> ResolverMethod:
         # PERF(kgriffs): Under PyPy the LRU is relatively expensive as compared
         #   to the common case of the self.data lookup succeeding. Using
